@@ -272,7 +272,7 @@ TLC_JOBS = {
     "numpy": {"quick": [({"LEN": 3, "ALPHA": "mid", "EMITMOD": 3}, 3, 4000), ({"LEN": 4, "ALPHA": "core", "EMITMOD": 5}, 4, 5000)],
               "thorough": [({"LEN": 3, "ALPHA": "mid", "EMITMOD": 1}, 4, None), ({"LEN": 5, "ALPHA": "core", "EMITMOD": 24}, 8, 70000)]},
     "sphinx": {"quick": [({"LEN": 3, "ALPHA": "core", "EMITMOD": 1}, 2, 4000), ({"LEN": 4, "ALPHA": "mini", "EMITMOD": 2}, 2, 4000)],
-               "thorough": [({"LEN": 3, "ALPHA": "rich", "EMITMOD": 1}, 4, None), ({"LEN": 4, "ALPHA": "core", "EMITMOD": 3}, 6, None), ({"LEN": 5, "ALPHA": "mini", "EMITMOD": 3}, 6, None)]},
+               "thorough": [({"LEN": 3, "ALPHA": "rich", "EMITMOD": 1}, 4, None), ({"LEN": 4, "ALPHA": "core", "EMITMOD": 6}, 6, None), ({"LEN": 5, "ALPHA": "mini", "EMITMOD": 4}, 6, None)]},
 }
 
 
